@@ -113,3 +113,65 @@ macro_rules! with_n {
         }
     };
 }
+
+/// conversions of the generic-width types (C14); `None` = the crate has no such operation (or an
+/// explicit `todo!()` stub)
+pub trait PXC: PX {
+    fn to_f32(self) -> f32;
+    fn to_f64(self) -> f64;
+    fn conv_to_f32(self) -> f32;
+    fn conv_to_f64(self) -> f64;
+    fn from_f32(x: f32) -> Self;
+    fn from_f64(x: f64) -> Self;
+    fn conv_from_f32(x: f32) -> Self;
+    fn conv_from_f64(x: f64) -> Self;
+    fn to_p8(self) -> [u64; 2];
+    fn to_p16(self) -> [u64; 2];
+    fn to_p32(self) -> [u64; 2];
+    fn from_p8(b: u8) -> [u32; 2];
+    fn from_p16(b: u16) -> [u32; 2];
+    fn from_p32(b: u32) -> [u32; 2];
+    fn from_i32(x: i32) -> Option<[u32; 2]>;
+    fn from_u32(x: u32) -> Option<[u32; 2]>;
+    fn from_i64(x: i64) -> Option<[u32; 2]>;
+    fn from_u64(x: u64) -> Option<[u32; 2]>;
+    fn to_i32(self) -> [i32; 2];
+    fn to_u32(self) -> [u32; 2];
+    fn to_i64(self) -> [i64; 2];
+    fn to_u64(self) -> [u64; 2];
+    fn from_q32(q: &softposit::Q32E2) -> Option<u32>;
+}
+
+use softposit::{P16E1, P32E2, P8E0};
+macro_rules! impl_pxc {
+    ($T:ident, $from_i64:expr, $from_u32:expr, $from_q:expr) => {
+        impl<const N: u32> PXC for $T<N> {
+            fn to_f32(self) -> f32 { <$T<N>>::to_f32(self) }
+            fn to_f64(self) -> f64 { <$T<N>>::to_f64(self) }
+            fn conv_to_f32(self) -> f32 { f32::from(self) }
+            fn conv_to_f64(self) -> f64 { f64::from(self) }
+            fn from_f32(x: f32) -> Self { <$T<N>>::from_f32(x) }
+            fn from_f64(x: f64) -> Self { <$T<N>>::from_f64(x) }
+            fn conv_from_f32(x: f32) -> Self { <$T<N> as From<f32>>::from(x) }
+            fn conv_from_f64(x: f64) -> Self { <$T<N> as From<f64>>::from(x) }
+            fn to_p8(self) -> [u64; 2] { [self.to_p8e0().to_bits() as u64, P8E0::from(self).to_bits() as u64] }
+            fn to_p16(self) -> [u64; 2] { [self.to_p16e1().to_bits() as u64, P16E1::from(self).to_bits() as u64] }
+            fn to_p32(self) -> [u64; 2] { [self.to_p32e2().to_bits() as u64, P32E2::from(self).to_bits() as u64] }
+            fn from_p8(b: u8) -> [u32; 2] { [<$T<N>>::from_p8e0(P8E0::from_bits(b)).to_bits(), <$T<N> as From<P8E0>>::from(P8E0::from_bits(b)).to_bits()] }
+            fn from_p16(b: u16) -> [u32; 2] { [<$T<N>>::from_p16e1(P16E1::from_bits(b)).to_bits(), <$T<N> as From<P16E1>>::from(P16E1::from_bits(b)).to_bits()] }
+            fn from_p32(b: u32) -> [u32; 2] { [<$T<N>>::from_p32e2(P32E2::from_bits(b)).to_bits(), <$T<N> as From<P32E2>>::from(P32E2::from_bits(b)).to_bits()] }
+            fn from_i32(x: i32) -> Option<[u32; 2]> { Some([<$T<N>>::from_i32(x).to_bits(), <$T<N> as From<i32>>::from(x).to_bits()]) }
+            fn from_u32(x: u32) -> Option<[u32; 2]> { $from_u32(x) }
+            fn from_i64(x: i64) -> Option<[u32; 2]> { $from_i64(x) }
+            fn from_u64(x: u64) -> Option<[u32; 2]> { Some([<$T<N>>::from_u64(x).to_bits(), <$T<N> as From<u64>>::from(x).to_bits()]) }
+            fn to_i32(self) -> [i32; 2] { [<$T<N>>::to_i32(self), i32::from(self)] }
+            fn to_u32(self) -> [u32; 2] { [<$T<N>>::to_u32(self), u32::from(self)] }
+            fn to_i64(self) -> [i64; 2] { [<$T<N>>::to_i64(self), i64::from(self)] }
+            fn to_u64(self) -> [u64; 2] { [<$T<N>>::to_u64(self), u64::from(self)] }
+            fn from_q32(q: &softposit::Q32E2) -> Option<u32> { $from_q(q) }
+        }
+    };
+}
+impl_pxc!(PxE2, |x: i64| Some([PxE2::<N>::from_i64(x).to_bits(), <PxE2<N> as From<i64>>::from(x).to_bits()]), |x: u32| Some([PxE2::<N>::from_u32(x).to_bits(), <PxE2<N> as From<u32>>::from(x).to_bits()]), |q: &softposit::Q32E2| Some(<PxE2<N> as From<&softposit::Q32E2>>::from(q).to_bits()));
+// PxE1::from_i64 and PxE1::from_u32 are explicit `todo!()` stubs; PxE1 has no quire conversion
+impl_pxc!(PxE1, |_x: i64| None, |_x: u32| None, |_q: &softposit::Q32E2| None);
